@@ -110,6 +110,9 @@ fn decode<const N: usize>(arr: &[u8; N], total: usize, want: Type, dcid_len: usi
     };
     assert!(ty == want, "be_packet_type returns the type that was written");
     assert!(total - rest.len() == want.encoding_size());
+    // re-bind the value just asserted equal to a concrete one (perf note 4): be_header then follows
+    // one header kind instead of all six
+    let ty = want;
     match be_header(ty, dcid_len, rest) {
         Ok((remain, h)) => (h, remain.len()),
         Err(_) => panic!("written header does not parse"),
